@@ -84,7 +84,8 @@ func (i *Ignore) IsIncluded(path string, index *Index) bool {
 	for _, exFile := range i.paths {
 		// a pattern must match whole path components up to the end of the path:
 		// "build/" must not hide "subbuild/o", "*.ext" must not hide "a.extra", ".goit/" must not hide "x.goit/f"
-		exRegexp, err := regexp.Compile("(?:^|/)(?:" + exFile + ")$")
+		// (?s): a path is data, "." and ".*" stand for any character of it, a line feed in a file name included
+		exRegexp, err := regexp.Compile("(?s)(?:^|/)(?:" + exFile + ")$")
 		if err != nil {
 			continue
 		}
